@@ -164,7 +164,7 @@ package polynomial
 // ---- constructors (C05)
 //@ func NewPolynomial
 //@   nopanic[C05]
-//@   requires group != nil && degree >= 0 && degree < 1000000
+//@   requires group != nil && degree >= 0
 //@   modifies heap:GV_hstate
 //@   allocates
 //@   loop 1: invariant polynomial != nil && fresh(polynomial) && fresh(polynomial.coefficients) && polynomial.group == group && len(polynomial.coefficients) == degree + 1 && 1 <= i && forall(k, integer, (0 <= k && k < i) ==> polynomial.coefficients[k] != nil)
